@@ -335,10 +335,22 @@ def run_check(mod, tier, seed):
     nshards = len(plan)
     args = [(mod.__name__, tier, seed, i, nshards, deadline, params) for i, params in enumerate(plan)]
     results = []
+    lost_shards = 0
     if nshards:
+        # a shard that does not come back (the code under test left something behind that blocks the worker) must not block the
+        # check: well after the budget the pool is torn down and what the other shards found is reported
+        hard_stop = deadline + max(120.0, 0.5 * budget)
         with _nodaemon_pool(min(NPROC, nshards)) as pool:
-            for r in pool.imap_unordered(_worker, args):
-                results.append(r)
+            it = pool.imap_unordered(_worker, args)
+            for _ in range(nshards):
+                try:
+                    results.append(it.next(timeout=max(1.0, hard_stop - time.time())))
+                except mp.TimeoutError:
+                    lost_shards = nshards - len(results)
+                    pool.terminate()
+                    break
+                except StopIteration:
+                    break
     results.sort(key=lambda r: r['index'])
     for r in results:
         if 'harness_error' in r:
@@ -457,7 +469,7 @@ def run_check(mod, tier, seed):
         budget_exhausted=budget_exhausted,
         exhaustive=bool(exhaustive) and all(exhaustive.values()) and not budget_exhausted and getattr(mod, 'ALL_EXHAUSTIVE', False),
         exhaustive_subspaces=exhaustive,
-        notes={**{k: v for k, v in sorted(rnotes.items())}, **notes},
+        notes={**{k: v for k, v in sorted(rnotes.items())}, **notes, **({'shards that did not return': lost_shards} if lost_shards else {})},
         known_findings_reported=known_lines,
     )
     ev = dict(property_id=prop, tier=tier, seed=seed, level='exploration', coverage=cov,
@@ -469,6 +481,9 @@ def run_check(mod, tier, seed):
     print(f'{prop} {tier} seed={seed}: evaluations={cov["evaluations"]} distinct_nontrivial={cov["distinct_nontrivial"]} '
           f'violations={len(violations)} known={len(known_lines)} excluded={sum(excluded.values())} '
           f'unconfirmed={unconfirmed} wall={wall:.1f}s budget_exhausted={budget_exhausted}')
+    if lost_shards and not violations:
+        print(f'HARNESS-ERROR {lost_shards} of {nshards} shards did not return within the hard limit; nothing is claimed for them')
+        return 2
     return 1 if violations else 0
 
 
